@@ -185,6 +185,13 @@ def _eliminate_returns(stmts: List[ast.stmt], result) -> Tuple[List[ast.stmt], b
                     every = every and rr
                 out.append(new)
                 return out, every
+            every_handler_returns = bool(st.handlers) and all(_eliminate_returns(h.body, result)[1] for h in st.handlers)
+            if not br and not orr and every_handler_returns and not st.finalbody and stmts[i + 1:]:
+                # try: X / except E: return …  / REST      — REST runs only when X did not raise: it is the `else` of the try
+                r, rr = _eliminate_returns(stmts[i + 1:], result)
+                new.orelse = list(new.orelse) + r
+                out.append(new)
+                return out, rr
             out.append(new)
             if (br or orr) and all_h:
                 return out, True
@@ -611,7 +618,23 @@ class Inliner:
         for n in ast.walk(new):
             if isinstance(n, ast.Name) and isinstance(n.ctx, (ast.Store, ast.Del)):
                 stores[n.id] = stores.get(n.id, 0) + 1
-        self._local_defs = {st.name: st for st in new.body if isinstance(st, ast.FunctionDef) and not stores.get(st.name)
+        def local_defs(stmts):
+            for st in stmts:
+                if isinstance(st, ast.FunctionDef):
+                    yield st
+                elif not isinstance(st, ast.ClassDef):
+                    for fld in ("body", "orelse", "finalbody"):
+                        sub = getattr(st, fld, None)
+                        if isinstance(sub, list):
+                            yield from local_defs(sub)
+                    if isinstance(st, ast.Try):
+                        for h in st.handlers:
+                            yield from local_defs(h.body)
+        all_defs = list(local_defs(new.body))
+        names_count: Dict[str, int] = {}
+        for d in all_defs:
+            names_count[d.name] = names_count.get(d.name, 0) + 1
+        self._local_defs = {st.name: st for st in all_defs if not stores.get(st.name) and names_count[st.name] == 1
                             and not st.decorator_list and not any(isinstance(x, (ast.Nonlocal, ast.Global)) for x in ast.walk(st))}
         new.body = self._block(new.body, self.depth) or [ast.Pass()]
         ast.fix_missing_locations(new)
@@ -1278,6 +1301,8 @@ def normalize(repo: Repo, ci: Optional[ClassInfo], fn: ast.FunctionDef, sf: Opti
     """flatten, then unroll (and, on request, expand attribute-chain aliases): the form in which rules read a function."""
     out = unroll(_flatten_only(repo, ci, fn, sf, **kw), repo, ci, sf)
     # unrolling a table of (tag, encoder, attribute) rows reveals calls of private helpers: read those through as well
+    if any(isinstance(n, ast.Assign) and isinstance(n.value, ast.IfExp) for n in ast.walk(out)):
+        out = split_conditional_callee(out)
     again = _flatten_only(repo, ci, out, sf, **kw)
     if ast.dump(again) != ast.dump(out):
         out = unroll(again, repo, ci, sf)
@@ -2025,6 +2050,48 @@ def pop_loops_as_for(fn: ast.FunctionDef) -> ast.FunctionDef:
             return ast.copy_location(ast.For(target=first.targets[0], iter=it, body=rest or [ast.Pass()], orelse=[]), node)
     new = copy.deepcopy(fn)
     X().visit(new)
+    ast.fix_missing_locations(new)
+    number(new)
+    return new
+
+
+def split_conditional_callee(fn: ast.FunctionDef) -> ast.FunctionDef:
+    """`f = A if c else B` (bound once) followed by the statement `f(args)` reads as `if c: A(args)` / `else: B(args)`."""
+    from .packed import single_defs
+    defs = single_defs(fn)
+    cands = {k: v for k, v in defs.items() if isinstance(v, ast.IfExp) and all(isinstance(b, (ast.Name, ast.Attribute)) for b in (v.body, v.orelse))}
+    if not cands:
+        return fn
+    uses: Dict[str, int] = {}
+    for n in ast.walk(fn):
+        if isinstance(n, ast.Name) and isinstance(n.ctx, ast.Load) and n.id in cands:
+            uses[n.id] = uses.get(n.id, 0) + 1
+    done: Set[str] = set()
+
+    class X(ast.NodeTransformer):
+        def visit_Expr(self, node):
+            c = node.value
+            if isinstance(c, ast.Call) and isinstance(c.func, ast.Name) and c.func.id in cands and uses.get(c.func.id) == 1:
+                ie = cands[c.func.id]
+                # the condition must not be changed between the definition and the call: only plain-name conditions are moved
+                if all(isinstance(x, (ast.Name, ast.UnaryOp, ast.Not, ast.Load, ast.BoolOp, ast.And, ast.Or)) for x in ast.walk(ie.test)):
+                    a = ast.Expr(value=ast.Call(func=copy.deepcopy(ie.body), args=copy.deepcopy(c.args), keywords=copy.deepcopy(c.keywords)))
+                    b = ast.Expr(value=ast.Call(func=copy.deepcopy(ie.orelse), args=copy.deepcopy(c.args), keywords=copy.deepcopy(c.keywords)))
+                    done.add(c.func.id)
+                    return ast.copy_location(ast.If(test=copy.deepcopy(ie.test), body=[a], orelse=[b]), node)
+            return node
+
+        def visit_Assign(self, node):
+            return node
+    new = copy.deepcopy(fn)
+    X().visit(new)
+    if done:
+        class Drop(ast.NodeTransformer):
+            def visit_Assign(self, node):
+                if len(node.targets) == 1 and isinstance(node.targets[0], ast.Name) and node.targets[0].id in done:
+                    return None
+                return node
+        Drop().visit(new)
     ast.fix_missing_locations(new)
     number(new)
     return new
